@@ -106,7 +106,24 @@ def rule_gzip_only(prog, fixture=False):
         from .c08 import _switch_handlers
         sw = [n for n in fn.walk() if n.get("k") == "SwitchStmt"]
         if len(sw) != 1:
-            raise AnalysisBroken("check_zlib_error_code: expected one switch")
+            # guard-clause form: the function comes back only under `code == Z_OK`; everything else ends in a throw
+            g0 = Guards(fn)
+            pd = fn.params[0]["d"] if fn.params else None
+            key = "%s::%s::returns-only-for-Z_OK" % (fn.relfile(), fn.qn)
+            rets = [x for x in fn.walk() if x.get("k") == "ReturnStmt"]
+            last = fn.body["c"][-1] if fn.body and fn.body.get("c") else None
+            while last is not None and last.get("k") in ("ExprWithCleanups", "CompoundStmt") and last.get("c"):
+                last = last["c"][-1]
+            ends_in_throw = last is not None and last.get("k") == "CXXThrowExpr"
+            ok_rets = bool(rets) and all(any(rel == "==" and ((strip_all(l) or {}).get("d") == pd and folded(rr) == 0 or
+                                                              (strip_all(rr) or {}).get("d") == pd and folded(l) == 0)
+                                             for l, rel, rr in (g0.cmps(x) or [])) for x in rets)
+            if pd is not None and ends_in_throw and ok_rets:
+                r.add(key, "%s:%d" % (fn.relfile(), fn.line), True, "every return is under `code == Z_OK`; the function ends in a throw")
+                r.add(key + "/default", "%s:%d" % (fn.relfile(), fn.line), True, "unknown codes reach the final throw")
+            else:
+                r.undecided.append("%s: check_zlib_error_code is neither one switch nor guard clauses ending in a throw" % fn.qn)
+            continue
         handlers = _switch_handlers(fn, sw[0])
         if "default" not in handlers:
             r.add("%s::%s::default" % (fn.relfile(), fn.qn), fn.loc(sw[0]), False,
